@@ -4,7 +4,7 @@ Assembly for the extended system (controller + scheduler bookkeeping): the base 
 -/
 import EkwVerif.Lemmas.SchedInvS1
 import EkwVerif.Lemmas.SchedInvS2
-import EkwVerif.Lemmas.SchedFifo
+import EkwVerif.Lemmas.SchedLive
 
 namespace EkwVerif.Ctrl
 
